@@ -120,8 +120,8 @@ func c06Recovery(w *World, db string, tracked map[string]Stored, inflight *Reque
 
 // c06One runs one history with the given crash points (at most one per child) and the behavioural tail.
 func c06One(t *testing.T, p *Plan, planPath string, crashes []string, st *c06Stats, real bool) ([]Violation, []string) {
-	dir := filepath.Join(scratchRoot, fmt.Sprintf("verifsim-c06-%d-%d", os.Getpid(), runCounter.Add(1)))
-	if err := os.MkdirAll(dir, 0o700); err != nil {
+	dir, err := scratchDir("c06")
+	if err != nil {
 		return nil, []string{err.Error()}
 	}
 	defer os.RemoveAll(dir)
@@ -241,8 +241,8 @@ func c06One(t *testing.T, p *Plan, planPath string, crashes []string, st *c06Sta
 func c06Reference(planPath string, p *Plan) (*childResult, []string) {
 	var refs [2]*childResult
 	for i := range refs {
-		dir := filepath.Join(scratchRoot, fmt.Sprintf("verifsim-c06-%d-%d", os.Getpid(), runCounter.Add(1)))
-		if err := os.MkdirAll(dir, 0o700); err != nil {
+		dir, err := scratchDir("c06")
+		if err != nil {
 			return nil, []string{err.Error()}
 		}
 		cr, err := runChild(planPath, filepath.Join(dir, "w.db"), 0, int(p.Cfg.Extra["tail_from"]), "", true)
@@ -312,8 +312,8 @@ func init() {
 		},
 		Run: func(t *testing.T, p *Plan) *Outcome {
 			out := &Outcome{Stats: newStats()}
-			dir := filepath.Join(scratchRoot, fmt.Sprintf("verifsim-c06p-%d-%d", os.Getpid(), runCounter.Add(1)))
-			if err := os.MkdirAll(dir, 0o700); err != nil {
+			dir, err := scratchDir("c06p")
+			if err != nil {
 				out.Infra = []string{err.Error()}
 				return out
 			}
